@@ -16,7 +16,8 @@ owner, acyclicity, fragments, extend), `Proofs/DomViews.lean` (views against the
 `Proofs/DomNormalize.lean` (normalize), `Proofs/DomWF.lean` (well-formedness), `Proofs/DomTreeBelow.lean` (tree-ness),
 `Proofs/DomCompare.lean`, `Proofs/DomCompareSpec.lean` (compareDocumentPosition).
 
-Vocabulary: `NoAlias h` = no node's `childNodes` is its `attributes['self']` fragment; `Inv h` = every child listed by a
+Vocabulary: `NoAlias h` = no node's `childNodes` is its `attributes['self']` fragment; `NoAttr2 h` = no element holds a
+fragment under another attribute key (the model's `attr2`, set by the driver operation `st`); `Inv h` = every child listed by a
 non-fragment node names that node as `parentNode` and is listed once; `Detached h c` = `c` is listed by no
 non-fragment node (the property's "detached argument"); `FragArg` = a fragment of distinct detached items;
 `Acyclic h` = a rank decreases along every child edge; `Owned h` = every node's `ownerDocument` is the document that
@@ -30,7 +31,8 @@ single nodes and fragments) and agreement with the executable Spec (`*_commutes`
 `Tree.normalize` (`normalize_refines_tree`) with its three corollaries.  `compareDocumentPosition` = the preorder
 comparison for two nodes of one tree, against the parent chains and against the Spec's `comparePos`.
 `compareDocumentPosition_agrees_all`: equal to the Spec's `comparePos` for every pair of nodes with proper parent chains.
-Kept as `…_statement` at the end: `normalize`/`cloneNode` as steps of a history keep the forest invariants.
+Kept as `…_statement` at the end: `normalize`/`cloneNode` as steps of a history keep the forest invariants (proved part:
+`normalize_clone_keep_forest_partial`), `isEqualNode` of a deep clone, normalisation of fragments under other attribute keys.
 -/
 namespace PlasVerif.Properties.C06
 open PlasVerif.Model.Dom PlasVerif.Proofs.Dom PlasVerif.Proofs.DomViews PlasVerif.Proofs.DomSpec
@@ -702,9 +704,9 @@ theorem textContent_is_concat (h : Heap) (n : Id) (fuel : Nat) (ha : NoAlias h) 
   · rw [← this]; simp [hk]
 
 /-- `getElementsByTagName` is the preorder filter of the proper descendants of the unfolded tree -/
-theorem getElementsByTagName_is_preorder_filter (h : Heap) (n : Id) (tag fuel : Nat) (ha : NoAlias h) :
+theorem getElementsByTagName_is_preorder_filter (h : Heap) (n : Id) (tag fuel : Nat) (ha : NoAlias h) (hb : NoAttr2 h) :
     getElementsByTagName fuel h n tag = (DomTree.abs fuel (toLL h) n).elementsByName tag :=
-  elements_abs ha tag fuel n
+  elements_abs ha hb tag fuel n
 
 example : textContent 3 (opAppend (opAppend (create (create init 0 .elem 0 []).1 0 .text 0 [104, 105]).1 0 1).1 1 2).1 0 = [104, 105] := by
   decide
@@ -732,9 +734,9 @@ theorem textContent_is_concat_aliased (h : Heap) (n : Id) (fuel : Nat) :
 
 /-- `getElementsByTagName` (after the repair) is the preorder filter of that tree: every matching element once
     per place it occupies, none twice because it is also reachable through the attribute -/
-theorem getElementsByTagName_is_preorder_filter_aliased (h : Heap) (n : Id) (tag fuel : Nat) :
+theorem getElementsByTagName_is_preorder_filter_aliased (h : Heap) (n : Id) (tag fuel : Nat) (hb : NoAttr2 h) :
     getElementsByTagName fuel h n tag = (DomTree.abs fuel (toLLc h) n).elementsByName tag :=
-  elements_abs_c h tag fuel n
+  elements_abs_c h hb tag fuel n
 
 /-- the pinned code before the repair reported a child held by the `self` attribute twice: element 1 with
     `attributes['self']` = fragment 3 = [element 2] -/
@@ -973,7 +975,7 @@ example : (DomTree.append? (toLL (create init 0 .elem 0 []).1) 0 1).isSome = tru
     `g` is the depth to which the two trees are unfolded: every depth below the recursion fuel the driver uses
     (`fuelOf h = h.next + 2`, more than the number of nodes).  Hypotheses made explicit compared with the earlier
     statement: the heap is well-formed (`WF`) and `s` is an allocated node. -/
-theorem clone_equal_disjoint (h : Heap) (s : Id) (ha : NoAlias h) (hwf : WF h) (hs : s < h.next) (g : Nat)
+theorem clone_equal_disjoint (h : Heap) (s : Id) (ha : NoAlias h) (hb : NoAttr2 h) (hwf : WF h) (hs : s < h.next) (g : Nat)
     (hg : g < fuelOf h) :
     (DomTree.abs g (toLL (opClone h s true).1.1) (opClone h s true).1.2).shape = (DomTree.abs g (toLL h) s).shape ∧
     (∀ i ∈ (DomTree.abs g (toLL (opClone h s true).1.1) (opClone h s true).1.2).ids, i ∉ (DomTree.abs g (toLL h) s).ids) ∧
@@ -981,7 +983,7 @@ theorem clone_equal_disjoint (h : Heap) (s : Id) (ha : NoAlias h) (hwf : WF h) (
     (∀ n, (opClone h s true).1.2 ∉ (opClone h s true).1.1.kids n) ∧
     (∀ n, n < h.next → (opClone h s true).1.1.kids n = h.kids n) ∧
     (opClone h s true).2 = none := by
-  have spec := Proofs.DomClone.clone_spec (fuelOf h) h.next h s ha hwf.2 hwf.1 hs (Nat.le_refl _)
+  have spec := Proofs.DomClone.clone_spec (fuelOf h) h.next h s ha hb hwf.2 hwf.1 hs (Nat.le_refl _)
   simp only [opClone]
   generalize clone (fuelOf h) h s true = r at spec
   obtain ⟨sh, ids⟩ := spec.shape g hg
@@ -1016,20 +1018,83 @@ def ValidAll : Heap → List Op → Prop
   | _, [] => True
   | h, o :: os => Pre h o ∧ NotAncestor h o ∧ Allocated h o ∧ ValidAll (applyOp h o) os
 
+/-- no editing operation touches a fragment held under another attribute key -/
+theorem attr2_step (h : Heap) (o : Op) (ha : NoAlias h) (hi : Inv h) (hp : Pre h o) : (applyOp h o).attr2 = h.attr2 := by
+  cases o with
+  | append s c => simp only [applyOp, opAppend_leaf ha s c hp.1]; rfl
+  | insert s i c => simp only [applyOp, opInsert_leaf ha s i c hp.1]; rfl
+  | pop s i => simp only [applyOp, opPop_fst]; exact pop_attr2 ha s i
+  | removeChild s c => exact removeChild_attr2 ha s c
+  | insertBefore s n r =>
+    simp only [applyOp, insertBefore]; rw [insertRel_eq ha 0 s n r hp.1]; simp only
+    split
+    · exact removeChild_attr2 ha s n
+    · exact removeChild_attr2 ha s n
+  | insertAfter s n r =>
+    simp only [applyOp, insertAfter]; rw [insertRel_eq ha 1 s n r hp.1]; simp only
+    split
+    · exact removeChild_attr2 ha s n
+    · exact removeChild_attr2 ha s n
+  | replaceChild s n old =>
+    simp only [applyOp]; rw [replaceChild_eq ha s n old hp.1]; simp only
+    split
+    · show (pop _ s _).1.attr2 = _
+      rw [pop_attr2 (noAlias_removeChild ha s n), removeChild_attr2 ha]
+    · exact removeChild_attr2 ha s n
+  | setItem s i c =>
+    simp only [applyOp]; rw [setItem_eq ha s i c hp.1, pop_attr2 (noAlias_putAt ha _ _ _)]; rfl
+  | extend s cs =>
+    simp only [applyOp]; rw [extend_eq s cs h ha (fun c hc => (hp.2 c hc).1)]; exact appendAll_attr2 s cs h
+  | appendFrag s c => simp only [applyOp, opAppend_frag_eq ha s c hp]; exact appendAll_attr2 s _ h
+  | insertFrag s i c =>
+    obtain ⟨hk, hne, _, _, hit⟩ := hp
+    simp only [applyOp, opInsert, splices_ne ha s c hne, Bool.false_eq_true, if_false,
+      insert_frag_eq ha s i c hk (fun it hm => (hit it hm).1)]
+    exact insertAll_attr2 s _ h i
+  | insertBeforeFrag s n r =>
+    obtain ⟨hk, hne, _, _, hit⟩ := hp
+    simp only [applyOp, insertBefore]; rw [insertRel_frag_eq ha 0 s n r hk hne (fun it hm => (hit it hm).1)]; simp only
+    split
+    · show (insertAll _ s _ _).1.attr2 = _
+      rw [insertAll_attr2, removeChild_attr2 ha]
+    · exact removeChild_attr2 ha s n
+  | insertAfterFrag s n r =>
+    obtain ⟨hk, hne, _, _, hit⟩ := hp
+    simp only [applyOp, insertAfter]; rw [insertRel_frag_eq ha 1 s n r hk hne (fun it hm => (hit it hm).1)]; simp only
+    split
+    · show (insertAll _ s _ _).1.attr2 = _
+      rw [insertAll_attr2, removeChild_attr2 ha]
+    · exact removeChild_attr2 ha s n
+  | replaceChildFrag s n o =>
+    obtain ⟨hk, hne, _, _, hit⟩ := hp
+    simp only [applyOp]; rw [replaceChild_frag_eq ha s n o hk hne (fun it hm => (hit it hm).1)]; simp only
+    split
+    · show (insertAll _ s _ _).1.attr2 = _
+      rw [insertAll_attr2, pop_attr2 (noAlias_removeChild ha s n), removeChild_attr2 ha]
+    · exact removeChild_attr2 ha s n
+  | setItemFrag s i c =>
+    obtain ⟨hk, hne, _, _, hit⟩ := hp
+    simp only [applyOp]; rw [setItem_frag_eq ha s i c hk hne (fun it hm => (hit it hm).1), opPop_fst,
+      pop_attr2 (noAlias_insertAll s _ h i ha), insertAll_attr2]
+  | extendAny s cs =>
+    simp only [applyOp, (extend_any_fst ha s cs hp).1]
+    exact extend_any_attr2 s cs h ha hi hp
+
 /-- **after every such history the heap is a well-formed forest**, so below every non-fragment node it is a tree
     and the heap-level theorems about `normalize` and `cloneNode` apply to it -/
-theorem forest_reachable (ops : List Op) : ∀ h, NoAlias h → Inv h → Acyclic h → Owned h → WF h → ValidAll h ops →
-    NoAlias (ops.foldl applyOp h) ∧ Inv (ops.foldl applyOp h) ∧ Acyclic (ops.foldl applyOp h) ∧
-    Owned (ops.foldl applyOp h) ∧ WF (ops.foldl applyOp h) ∧
+theorem forest_reachable (ops : List Op) : ∀ h, NoAlias h → NoAttr2 h → Inv h → Acyclic h → Owned h → WF h → ValidAll h ops →
+    NoAlias (ops.foldl applyOp h) ∧ NoAttr2 (ops.foldl applyOp h) ∧ Inv (ops.foldl applyOp h) ∧
+    Acyclic (ops.foldl applyOp h) ∧ Owned (ops.foldl applyOp h) ∧ WF (ops.foldl applyOp h) ∧
     ∀ s, (ops.foldl applyOp h).kind s ≠ .frag → s < (ops.foldl applyOp h).next → TreeBelow (ops.foldl applyOp h) s := by
   induction ops with
   | nil =>
-    intro h ha hi hac ho hw _
-    exact ⟨ha, hi, hac, ho, hw, fun s hk hs => treeBelow_of_forest h s hi hac hw hk hs⟩
+    intro h ha hb hi hac ho hw _
+    exact ⟨ha, hb, hi, hac, ho, hw, fun s hk hs => treeBelow_of_forest h s hi hac hw hk hs⟩
   | cons o os ih =>
-    intro h ha hi hac ho hw hv
+    intro h ha hb hi hac ho hw hv
     have := inv_step h o ha hi hv.1
-    exact ih _ this.1 this.2 (acyclic_step h o ha hi hv.1 hv.2.1 hac) (owner_preserved h o ha hi hv.1 ho)
+    have hb' : NoAttr2 (applyOp h o) := fun n => by rw [attr2_step h o ha hi hv.1]; exact hb n
+    exact ih _ this.1 hb' this.2 (acyclic_step h o ha hi hv.1 hv.2.1 hac) (owner_preserved h o ha hi hv.1 ho)
       (wf_step h o ha hi hv.1 hv.2.2.1 hw) hv.2.2.2
 
 /-- `opNormalize` is `normalize` with the driver's fuel whenever the node has an owner document -/
@@ -1039,40 +1104,40 @@ theorem opNormalize_eq (h : Heap) (s : Id) (ho : h.owner s ≠ none) :
 /-- **heap-level `normalize` = tree-level `Tree.normalize`** (up to the identity of the fresh text nodes), for
     every unfolding depth up to the fuel; nothing outside the subtree of `s` changes; the heap stays well-formed.
     Hypotheses made explicit compared with the earlier statement: `WF h`, `s` allocated, `TreeBelow h s`. -/
-theorem normalize_refines_tree (h : Heap) (s : Id) (ha : NoAlias h) (hwf : WF h) (hs : s < h.next)
+theorem normalize_refines_tree (h : Heap) (s : Id) (ha : NoAlias h) (hb : NoAttr2 h) (hwf : WF h) (hs : s < h.next)
     (ht : TreeBelow h s) (g : Nat) (hg : g ≤ fuelOf h) :
     (DomTree.abs g (toLL (normalize (fuelOf h) h s)) s).shape = (DomTree.abs g (toLL h) s).normalize.shape ∧
     NoAlias (normalize (fuelOf h) h s) ∧
     (∀ n, n < h.next → n ∉ (DomTree.abs (fuelOf h) (toLL h) s).ids → (normalize (fuelOf h) h s).kids n = h.kids n) := by
-  have spec := Proofs.DomNormalize.norm_spec (fuelOf h) h s ⟨ha, hwf.1, hs, ht⟩
+  have spec := Proofs.DomNormalize.norm_spec (fuelOf h) h s ⟨ha, hb, hwf.1, hs, ht⟩
   exact ⟨spec.shape g hg, spec.noAlias, spec.frame⟩
 
 /-- heap-level: normalisation does not change `textContent` -/
-theorem normalize_preserves_textContent_heap (h : Heap) (s : Id) (ha : NoAlias h) (hwf : WF h) (hs : s < h.next)
+theorem normalize_preserves_textContent_heap (h : Heap) (s : Id) (ha : NoAlias h) (hb : NoAttr2 h) (hwf : WF h) (hs : s < h.next)
     (ht : TreeBelow h s) (g : Nat) (hg : g + 1 ≤ fuelOf h) :
     textContent (g + 1) (normalize (fuelOf h) h s) s = textContent (g + 1) h s := by
-  obtain ⟨hsh, ha', _⟩ := normalize_refines_tree h s ha hwf hs ht (g + 1) hg
+  obtain ⟨hsh, ha', _⟩ := normalize_refines_tree h s ha hb hwf hs ht (g + 1) hg
   rw [textContent_is_concat _ s g ha', textContent_is_concat h s g ha,
     Proofs.DomTree.textContent_congr hsh, Proofs.DomTree.normalize_textContent]
 
 /-- heap-level: after `normalize` no two text nodes are adjacent anywhere below `s` -/
-theorem normalize_merges_adjacent_text_heap (h : Heap) (s : Id) (ha : NoAlias h) (hwf : WF h) (hs : s < h.next)
+theorem normalize_merges_adjacent_text_heap (h : Heap) (s : Id) (ha : NoAlias h) (hb : NoAttr2 h) (hwf : WF h) (hs : s < h.next)
     (ht : TreeBelow h s) (g : Nat) (hg : g ≤ fuelOf h) :
     DomTree.noAdjacentText [DomTree.abs g (toLL (normalize (fuelOf h) h s)) s] = true := by
-  obtain ⟨hsh, _, _⟩ := normalize_refines_tree h s ha hwf hs ht g hg
+  obtain ⟨hsh, _, _⟩ := normalize_refines_tree h s ha hb hwf hs ht g hg
   rw [Proofs.DomTree.noAdjacentText_congr (us := [(DomTree.abs g (toLL h) s).normalize]) (by simp [DomTree.shapeL, hsh])]
   exact normalize_merges_adjacent_text _
 
 /-- heap-level: normalising again changes nothing (up to the identity of the merged text nodes), provided the
     normalised subtree is still a tree at the larger fuel of the second run -/
-theorem normalize_idempotent_heap (h : Heap) (s : Id) (ha : NoAlias h) (hwf : WF h) (hs : s < h.next)
+theorem normalize_idempotent_heap (h : Heap) (s : Id) (ha : NoAlias h) (hb : NoAttr2 h) (hwf : WF h) (hs : s < h.next)
     (ht : TreeBelow h s) (ht' : TreeBelow (normalize (fuelOf h) h s) s) (g : Nat) (hg : g ≤ fuelOf h) :
     (DomTree.abs g (toLL (normalize (fuelOf (normalize (fuelOf h) h s)) (normalize (fuelOf h) h s) s)) s).shape =
       (DomTree.abs g (toLL (normalize (fuelOf h) h s)) s).shape := by
-  have spec := Proofs.DomNormalize.norm_spec (fuelOf h) h s ⟨ha, hwf.1, hs, ht⟩
+  have spec := Proofs.DomNormalize.norm_spec (fuelOf h) h s ⟨ha, hb, hwf.1, hs, ht⟩
   have hle : (h.next : Nat) ≤ (normalize (fuelOf h) h s).next := spec.next_le
   have spec2 := Proofs.DomNormalize.norm_spec (fuelOf (normalize (fuelOf h) h s)) (normalize (fuelOf h) h s) s
-    ⟨spec.noAlias, spec.closed, Nat.lt_of_lt_of_le hs hle, ht'⟩
+    ⟨spec.noAlias, spec.noAttr2, spec.closed, Nat.lt_of_lt_of_le hs hle, ht'⟩
   have hg2 : g ≤ fuelOf (normalize (fuelOf h) h s) := by
     simp only [fuelOf] at hg ⊢; exact Nat.le_trans hg (Nat.add_le_add_right hle 2)
   rw [spec2.shape g hg2, Proofs.DomTree.normalize_congr (spec.shape g hg), normalize_idempotent, ← spec.shape g hg]
@@ -1434,19 +1499,53 @@ example : UpChain exC 4 [4, 1, 0] ∧ UpChain exC 2 [2, 1, 0] :=
    .step 2 1 _ (by decide) (.step 1 0 _ (by decide) (.root 0 (by decide)))⟩
 example : compareDocumentPosition exC 4 2 = 2 ∧ compareDocumentPosition exC 2 4 = 4 := by decide
 
+/-! ## `normalize` and `cloneNode(True)` as steps of a history -/
+
+/-- **proved part**: `normalize` keeps `NoAlias`, `NoAttr2`, the owner documents and the well-formedness of the heap;
+    `cloneNode(True)` keeps `NoAlias`, `NoAttr2`, the owner documents and allocates cleanly (nothing listed beyond the
+    counter).  Missing for the full `normalize_clone_keep_forest_statement` below: `Inv` and `Acyclic` for both (the
+    `parentNode` fields of re-appended / fresh nodes and a rank function for the rebuilt subtree are not tracked by
+    `Proofs/DomNormalize.lean` / `Proofs/DomClone.lean`) and the closedness of the lists after a clone. -/
+theorem normalize_clone_keep_forest_partial (h : Heap) (s : Id) (ha : NoAlias h) (hb : NoAttr2 h) (ho : Owned h)
+    (hw : WF h) (hs : s < h.next) (ht : TreeBelow h s) :
+    (NoAlias (normalize (fuelOf h) h s) ∧ NoAttr2 (normalize (fuelOf h) h s) ∧ Owned (normalize (fuelOf h) h s) ∧
+      WF (normalize (fuelOf h) h s)) ∧
+    (NoAlias (opClone h s true).1.1 ∧ NoAttr2 (opClone h s true).1.1 ∧ Owned (opClone h s true).1.1 ∧
+      Proofs.DomClone.Fresh (opClone h s true).1.1) := by
+  have ns := Proofs.DomNormalize.norm_spec (fuelOf h) h s ⟨ha, hb, hw.1, hs, ht⟩
+  have cs := Proofs.DomClone.clone_spec (fuelOf h) h.next h s ha hb hw.2 hw.1 hs (Nat.le_refl _)
+  exact ⟨⟨ns.noAlias, ns.noAttr2, ns.owned ho, ns.closed, ns.fresh hw.2⟩, ⟨cs.noAlias, cs.noAttr2, cs.owned ho, cs.fresh⟩⟩
+
 /-! ## statements carried by the correspondence only (not proved) -/
 
-/-- `normalize` and `cloneNode(True)` as steps of a history: they keep the forest invariants, so that histories mixing
-    them with the sixteen list operations stay inside `forest_reachable`.  Not proved: `normalize_refines_tree` and
-    `clone_equal_disjoint` describe the child lists, kinds and texts (and keep `NoAlias`; normalize also keeps the
-    lists closed), but the `parentNode`/`ownerDocument` fields of the nodes they re-append or create and a rank
-    function for the rebuilt subtree are not tracked by `Proofs/DomNormalize.lean` / `Proofs/DomClone.lean`.
+/-- `normalize` and `cloneNode(True)` keep all forest invariants, so that histories mixing them with the sixteen list
+    operations stay inside `forest_reachable`.  Proved so far: `normalize_clone_keep_forest_partial`.
     The `hist` stream checks the invariant on the real objects after every such step. -/
 def normalize_clone_keep_forest_statement : Prop :=
-  ∀ (h : Heap) (s : Id), NoAlias h → Inv h → Acyclic h → Owned h → WF h → s < h.next → h.kind s ≠ .frag →
+  ∀ (h : Heap) (s : Id), NoAlias h → NoAttr2 h → Inv h → Acyclic h → Owned h → WF h → s < h.next → h.kind s ≠ .frag →
     (Inv (normalize (fuelOf h) h s) ∧ Acyclic (normalize (fuelOf h) h s) ∧ Owned (normalize (fuelOf h) h s) ∧
       WF (normalize (fuelOf h) h s)) ∧
     (Inv (opClone h s true).1.1 ∧ Acyclic (opClone h s true).1.1 ∧ Owned (opClone h s true).1.1 ∧
       WF (opClone h s true).1.1)
+
+/-- a deep clone `isEqualNode` its original (`Node.__eq__`, model `eqNode`), both ways.  Not proved: the shapes are
+    equal to every depth below the fuel (`clone_equal_disjoint`), but `eqNode` with the driver's fuel equals the
+    comparison of the *whole* trees only when the fuel exceeds the height of the subtree, and no bound of the height
+    by the number of allocated nodes has been proved.  The driver evaluates `eqNode` at every `cloneNode(True)` of
+    every history and the harness compares it with `==` / `isEqualNode` of the real objects (flag `q`). -/
+def clone_isEqualNode_statement : Prop :=
+  ∀ (h : Heap) (s : Id), NoAlias h → NoAttr2 h → Inv h → Acyclic h → WF h → s < h.next →
+    eqNode (fuelOf (opClone h s true).1.1) (opClone h s true).1.1 (opClone h s true).1.2 s = true ∧
+    eqNode (fuelOf (opClone h s true).1.1) (opClone h s true).1.1 s (opClone h s true).1.2 = true
+
+/-- `normalize` also normalises the fragments held under other attribute keys (`attr2`), of the node and of every
+    element below it, also when the element never had a child list.  Not proved: `Proofs/DomNormalize.lean` assumes
+    `NoAttr2` for the whole heap; the model transcribes the loop over `attributes` and the harness checks on the real
+    objects, after every `normalize`, that no two text nodes are adjacent anywhere below the node, attribute-held
+    fragments included (flag `n`). -/
+def normalize_attribute_fragments_statement : Prop :=
+  ∀ (h : Heap) (e f : Id) (g : Nat), NoAlias h → Inv h → Acyclic h → WF h → e < h.next → h.attr2 e = some f →
+    g ≤ fuelOf h →
+    (DomTree.abs g (toLL (normalize (fuelOf h) h e)) f).shape = (DomTree.abs g (toLL h) f).normalize.shape
 
 end PlasVerif.Properties.C06
